@@ -25,3 +25,24 @@ Definition get_bit (m : img) (q : Z) : bool := Z.testbit (m (q / 8)) (7 - q mod 
    [pos, pos+bits) of the image: bit j of the field (from the left) is bit (bits-1-j) of px *)
 Definition field_is (m : img) (pos bits px : Z) : Prop :=
   forall j, 0 <= j < bits -> get_bit m (pos + j) = Z.testbit px (bits - 1 - j).
+
+(* ---- the pass table of the specification (section 8.2: starting column/row and increments), and the
+   rows an interlaced image consists of: for each pass 1..7 in order, the pass image has
+   ceil((w - xstart)/dx) x ceil((h - ystart)/dy) pixels, it is absent when either is zero, and its
+   scanlines are transmitted top to bottom. *)
+Definition adam7_spec_table : list (Z * (Z * Z * Z * Z)) :=   (* pass, (xstart, ystart, dx, dy) *)
+  [(1, (0, 0, 8, 8)); (2, (4, 0, 8, 8)); (3, (0, 4, 4, 8)); (4, (2, 0, 4, 4));
+   (5, (0, 2, 2, 4)); (6, (1, 0, 2, 2)); (7, (0, 1, 1, 2))].
+
+Definition count_from (n start step : Z) : Z := if n <=? start then 0 else (n - start + step - 1) / step.
+
+Fixpoint zseq_spec (start : Z) (n : nat) : list Z :=
+  match n with O => [] | S n' => start :: zseq_spec (start + 1) n' end.
+
+Definition rows_spec (w h : Z) : list (Z * Z * Z) :=
+  flat_map (fun e : Z * (Z * Z * Z * Z) =>
+    let '(p, (xs, ys, dx, dy)) := e in
+    let pw := count_from w xs dx in
+    let ph := count_from h ys dy in
+    if (0 <? pw) && (0 <? ph) then map (fun l => (p, l, pw)) (zseq_spec 0 (Z.to_nat ph)) else [])
+  adam7_spec_table.
